@@ -500,6 +500,25 @@ func runTxPlan(c *collector, roundSeed int64, scale int, pl txPlan) {
 	}
 
 	quiescentChecks(c, p, pl, u, cache, nAdd.Load(), nRem.Load())
+	if pl.cfg.EvictionEnabled && pl.clearers == 0 {
+		// C06 after concurrent use: once everything has finished, the next insertions run their eviction, so after
+		// each of them the pool exceeds the thresholds by at most the transaction just added
+		extra := makeUniverse(p.rng(), 1, 6, true)
+		{
+			for _, t := range extra.txs {
+				t.hash = append([]byte("late-"), t.hash...)
+				t.sender = []byte("LATE")
+				registerLate(u, t)
+				cache.AddTx(t.wrapped())
+				c.eval("quiescent_pool_wide_bound_after_next_insertion")
+				if cache.CountTx() > uint64(pl.cfg.CountThreshold)+1 || cache.CountSenders() > uint64(pl.cfg.CountThreshold)+1 ||
+					int64(cache.NumBytes()) > int64(pl.cfg.NumBytesThreshold)+t.size {
+					p.failf("monitor", "after all goroutines finished, a further AddTx leaves CountTx=%d CountSenders=%d NumBytes=%d over the thresholds (count %d, bytes %d) by more than the transaction just added: eviction no longer runs",
+						cache.CountTx(), cache.CountSenders(), cache.NumBytes(), pl.cfg.CountThreshold, pl.cfg.NumBytesThreshold)
+				}
+			}
+		}
+	}
 	if !p.failed.Load() && c.round == 0 {
 		c.sample(fmt.Sprintf("%s round 0: %d goroutines, %d AddTx, %d removals, %d selections judged (%d non-empty), %d ordered-list probes, %d quiescent instants; at the end CountTx=%d=|Keys|, NumBytes=%d",
 			pl.name, p.nGo, nAdd.Load(), nRem.Load(), nSel.Load(), selNonEmpty.Load(), nProbe.Load(), pl.readds+1, cache.CountTx(), cache.NumBytes()))
@@ -735,4 +754,10 @@ func obsEvictReadd(c *collector) {
 	if cache.CountTx() != uint64(keys) {
 		p.failf("monitor", "directed schedule evict/re-add: CountTx=%d but %d hashes are reachable", cache.CountTx(), keys)
 	}
+}
+
+// registerLate makes a transaction created after the phase's universe known to the host stub.
+func registerLate(u *universe, t *txSpec) {
+	u.hst.byHash[string(t.hash)] = t
+	u.byHash[string(t.hash)] = t
 }
